@@ -25,10 +25,24 @@ EXPLANATION = (
     "construct_expression_tree are dominated by a length test that raises. C01.tables: accepted operators are keys of the "
     "evaluator tables. C01.dupkeys: a dict keyed directly by the tokens of an argument list collapses repeated arguments. "
     "C01.order: argument tokens reach signatures unsorted. C01.leftover: the dash-grouped typed-list readers flush (or reject) the "
-    "trailing untyped group."
+    "trailing untyped group; C01.trailing: with a NON-EMPTY trailing group every way from the end of the walk to the exit stores its names "
+    "(valuation of the emptiness tests of the group) or raises. "
+    "C01.forms.*: the handlers (PreconditionsParser.parse, EffectsParser.parse with the public methods it calls analysed in place, "
+    "DomainParser.parse_preconditions, construct_expression_tree, parse_untyped_predicate, DomainParser.parse_domain) are judged per INPUT CLASS "
+    "(tables *_SCENARIOS: token at some positions, lengths, list / flat flags, head declared or not) by guard valuation -- nothing is executed: "
+    "every test that compares a position of the node -- found by provenance, e.g. ('param:ast','elem','slice:1:','item:0') is position 1 -- with "
+    "constants gets the truth value it has for the class (L.Guards), the rest stays open; reachability, must-pass and provenance under that "
+    "valuation decide the clauses.  A supported form must be able to end its turn without raise, must not reach the raise of the unknown-node arm, reads no position beyond "
+    "the given lengths, and on EVERY accepting path passes a sink (add / store into the object under construction, or the returned value) whose "
+    "value -- traced under the valuation -- carries the parts of the node at the named constructor / callee parameters (printed forms do not count), "
+    "built in this turn; no other part of the object is written; calls listed as sites (recursive parse with the nested root and node[1:]) are "
+    "passed; forms outside the fragment (undeclared head, n-ary arithmetic, forall with two variables / a non-connective body, when with 2 or 4 "
+    "parts) end in raise on every path.  C01.walk: no turn of the node loops ends the loop, and the loop iterates the list handed in or what "
+    "follows its checked head.  C01.defaults: the fields of the fresh Domain that parse_domain reads are set by Domain.__init__ on every path."
 )
-UNDECIDED = ("that the stored formula equals the written one for every program of the grammar; signature / type fidelity of "
-             "declarations beyond the clauses above; sections outside PDDL 2.1 level 2")
+UNDECIDED = ("that the stored formula equals the written one for every program of the grammar (the scenario tables are finite: one abstract node "
+             "per supported form and per rejected neighbour); what the callees named in the flows do with their arguments beyond their own "
+             "clauses; signature / type fidelity of declarations beyond the clauses above; sections outside PDDL 2.1 level 2")
 
 PARSER_MODS = ("lisp_parsers.preconditions_parser", "lisp_parsers.effects_parser")
 NODROP_EXCLUDED = {
@@ -349,7 +363,8 @@ def rule_polarity(repo: Repo, rid: str = "C01.polarity") -> RuleResult:
                             continue
                     pv = G.value(valn, ispos, seen_) if ispos is not None else True
                     ftr = p.trace(first, under=G.under(valn, seen_)) if first is not None else set()
-                    inner = bool(ftr) and all(x[-1] == "item:1" or not x[0].startswith("param:") for x in ftr) and any(x[-1] == "item:1" for x in ftr)
+                    inner = bool(ftr) and all(x[-1] in ("item:1", "unpack:1") or not x[0].startswith("param:") for x in ftr) \
+                        and any(x[-1] in ("item:1", "unpack:1") for x in ftr)
                     kinds_seen.add(("literal", "not" if is_not else "pos"))
                     verdicts.append((is_not, pv, inner))
                 sample = {"function": f.qn, "call": unparse(c, 80), "verdicts": [(a_, str(b_) if not isinstance(b_, bool) else b_, c_) for a_, b_, c_ in verdicts]}
@@ -379,7 +394,7 @@ def rule_polarity(repo: Repo, rid: str = "C01.polarity") -> RuleResult:
                 idx = []
                 for e in elts:
                     tr = p.trace(e)
-                    idx.append(sorted({x[-1] for x in tr}))
+                    idx.append(sorted({x[-1].replace("unpack:", "item:") for x in tr}))     # a, b, c = node  <->  node[1], node[2]
                 okpair = idx == [["item:1"], ["item:2"]]
                 sample = {"function": f.qn, "sink": which, "under_not": under_not, "pair_from": idx}
                 if ((which == "inequality_preconditions" and under_not) or (which == "equality_preconditions" and under_pos)) and okpair:
@@ -412,11 +427,26 @@ class ConstDispatch:
         for a in list(aliases):
             aliases |= classes.get(a, set())
         self.tests: Dict[int, Tuple[str, List[object]]] = {}
+        # ... and by provenance: whatever the head is called or unpacked into (`label, *content = section`), it is position 0 of the element
+        p = L.prov(repo, f)
+        try:
+            elem_paths = {x + ("elem",) for x in p.trace(loop.iter)}
+        except (KeyError, RecursionError):
+            elem_paths = set()
+        head_paths = {x + (s,) for x in elem_paths for s in ("item:0", "unpack:0")}
 
         def is_head(e):
             if isinstance(e, ast.Name) and (e.id in aliases or e.id in same):
                 return True
-            return isinstance(e, ast.Subscript) and isinstance(e.slice, ast.Constant) and e.slice.value == 0 and ast.unparse(e.value) in same
+            if isinstance(e, ast.Subscript) and isinstance(e.slice, ast.Constant) and e.slice.value == 0 and ast.unparse(e.value) in same:
+                return True
+            if isinstance(e, ast.Name) and isinstance(e.ctx, ast.Load) and head_paths:
+                try:
+                    tr = p.trace(e)
+                except (KeyError, RecursionError):
+                    return False
+                return bool(tr) and tr <= head_paths
+            return False
 
         def consts_of(e):
             if isinstance(e, ast.Constant) and isinstance(e.value, str):
@@ -900,6 +930,578 @@ def rule_typedlist(repo: Repo, rid: str, specs: List[str], lookup_required: bool
     return r
 
 
+# --------------------------------------------------------------------------- handlers judged per input class (guard valuation; see _c01_util)
+from . import _c01_util as U
+from ._c01_util import Scenario as S
+
+OTHER = U.UNKNOWN_TOKEN
+# how a value reaches a parameter of `parse` (PreconditionsParser.parse / EffectsParser.parse share the name: positional arguments are
+# not resolved to a parameter name by the engine)
+TO_ROOT = ("parse.precondition_root", "arg0:parse")
+TO_AST = ("parse.preconditions_ast", "arg1:parse")
+NUMERIC_TREE = ["construct_expression_tree.expression_ast", "NumericalExpressionTree.expression_tree"]
+LITERAL = ["parse_untyped_predicate.untyped_predicate"]
+_NUMERIC_SINK = dict(sink=((), [((), NUMERIC_TREE)]))
+
+# PDDL 2.1 level-2 precondition nodes: what each form must become (positions are those of the written list: (p ?x) -> 0 is the head)
+PRECONDITION_SCENARIOS = [
+    S("and", tok={(0,): "and"}, sink=((), [((0,), ["Precondition.binary_operator"])]), nested_result=True,
+      sites=[("parse", [(("1:",), [TO_AST]), ("fresh:Precondition", [TO_ROOT])])]),
+    S("or", tok={(0,): "or"}, sink=((), [((0,), ["Precondition.binary_operator"])]), nested_result=True,
+      sites=[("parse", [(("1:",), [TO_AST]), ("fresh:Precondition", [TO_ROOT])])]),
+    S("atom", tok={(0,): OTHER}, declared=True, sink=((), [((), LITERAL)])),
+    S("undeclared", tok={(0,): OTHER}, declared=False, reject="a literal over an undeclared predicate / an unknown keyword (imply, exists) is rejected"),
+    S("not-atom", tok={(0,): "not", (1, 0): OTHER}, sink=((), [((1,), LITERAL)])),
+    S("not-equal", tok={(0,): "not", (1, 0): "="}, sink=(("inequality_preconditions",), [((1, 1), ["in:0"]), ((1, 2), ["in:1"])])),
+    S("equal-objects", tok={(0,): "=", (1,): "?x", (2,): "?y"}, sink=(("equality_preconditions",), [((1,), ["in:0"]), ((2,), ["in:1"])])),
+    S("equal-numeric", tok={(0,): "="}, is_list={(1,): True}, **_NUMERIC_SINK),
+    S("<=", tok={(0,): "<="}, **_NUMERIC_SINK), S(">=", tok={(0,): ">="}, **_NUMERIC_SINK),
+    S("<", tok={(0,): "<"}, **_NUMERIC_SINK), S(">", tok={(0,): ">"}, **_NUMERIC_SINK),
+    S("forall", tok={(0,): "forall", (2, 0): "and"}, length={(): 3, (1,): 3},
+      sink=((), [((1, 0), ["UniversalPrecondition.quantified_parameter"]), ((2, 0), ["UniversalPrecondition.binary_operator"]),
+                 ((1, 2), ["askey", "UniversalPrecondition.quantified_type"])]),
+      sites=[("parse", [((2, "1:"), [TO_AST]), ("fresh:UniversalPrecondition", [TO_ROOT]), ((1, 0), ["in:key"])])]),
+    S("forall-two-variables", tok={(0,): "forall", (2, 0): "and"}, length={(): 3, (1,): 6}, reject="(forall (?x - t ?y - u) ..) is outside the fragment: one quantified variable"),
+    S("forall-untyped-variable", tok={(0,): "forall", (2, 0): "and"}, length={(): 3, (1,): 1}, reject="(forall (?x) ..): the quantified variable needs '- type'"),
+    S("forall-imply", tok={(0,): "forall", (2, 0): "imply"}, length={(): 3, (1,): 3}, reject="the quantified body must be a conjunction / disjunction"),
+    S("forall-literal", tok={(0,): "forall", (2, 0): OTHER}, length={(): 3, (1,): 3}, reject="the quantified body must be a conjunction / disjunction"),
+]
+
+
+_QUANTIFIED = [((1, 0), ["UniversalEffect.quantified_parameter"]), ((1, 2), ["askey", "UniversalEffect.quantified_type"])]
+_WHEN = dict(tok={(0,): "when"}, length={(): 3})
+# PDDL 2.1 level-2 effect nodes (inside the top-level `and`): literal, (not literal), numeric update, (when c e), (forall (?v - t) (when c e))
+EFFECT_SCENARIOS = [
+    S("atom", tok={(0,): OTHER}, declared=True, sink=(("discrete_effects",), [((), LITERAL)])),
+    S("unknown", tok={(0,): OTHER}, declared=False, reject="scale-up / scale-down / an undeclared predicate / a nested `and` is rejected"),
+    S("not", tok={(0,): "not"}, sink=(("discrete_effects",), [((1,), LITERAL)])),
+    S("assign", tok={(0,): "assign"}, sink=(("numeric_effects",), [((), NUMERIC_TREE)])),
+    S("increase", tok={(0,): "increase"}, sink=(("numeric_effects",), [((), NUMERIC_TREE)])),
+    S("decrease", tok={(0,): "decrease"}, sink=(("numeric_effects",), [((), NUMERIC_TREE)])),
+    S("when", tok={(0,): "when", (1, 0): "and", (2, 0): "and"}, length={(): 3}, sink=(("conditional_effects",), [("fresh:ConditionalEffect", [])]),
+      sites=[("parse", [((1, "1:"), [TO_AST])])]),
+    S("when-single", tok={(0,): "when", (1, 0): OTHER, (2, 0): OTHER}, length={(): 3}, sink=(("conditional_effects",), [("fresh:ConditionalEffect", [])]),
+      sites=[("parse", [((1,), ["in:0", TO_AST])])]),
+    S("when-two-parts", tok={(0,): "when"}, length={(): 2}, reject="(when c) has no effect part"),
+    S("when-four-parts", tok={(0,): "when"}, length={(): 4}, reject="(when c e1 e2): the effects of a `when` are one node"),
+    S("forall", tok={(0,): "forall", (2, 0): "when", (2, 1, 0): "and", (2, 2, 0): "and"}, length={(): 3, (1,): 3, (2,): 3},
+      sink=(("universal_effects",), _QUANTIFIED), sites=[("parse", [((2, 1, "1:"), [TO_AST])])]),
+    S("forall-two-variables", tok={(0,): "forall", (2, 0): "when"}, length={(): 3, (1,): 6, (2,): 3}, reject="one quantified variable"),
+    S("forall-untyped-variable", tok={(0,): "forall", (2, 0): "when"}, length={(): 3, (1,): 1, (2,): 3}, reject="the quantified variable needs '- type'"),
+    S("forall-two-bodies", tok={(0,): "forall", (2, 0): "when"}, length={(): 4, (1,): 3, (2,): 3}, reject="(forall (?v - t) e1 e2): one body"),
+    S("forall-no-body", tok={(0,): "forall"}, length={(): 2, (1,): 3}, reject="(forall (?v - t)) has no body"),
+]
+
+
+_ENTRY_SINK = (("preconditions",), [("fresh:CompoundPrecondition", [])])
+_ENTRY_ROOT = ("fresh:CompoundPrecondition", ["attr:root", TO_ROOT])
+# the :precondition body handed to DomainParser.parse_preconditions
+PRECONDITION_BODY_SCENARIOS = [
+    S("()", length={(): 0}, accept_only="the empty precondition is grammatical: nothing is read from the empty list"),
+    S("(and c1 c2)", tok={(0,): "and"}, length={(): 3}, sink=_ENTRY_SINK, sites=[("parse", [(("1:",), [TO_AST]), _ENTRY_ROOT])]),
+    S("(and c)", tok={(0,): "and"}, length={(): 2}, sink=_ENTRY_SINK, sites=[("parse", [(("1:",), [TO_AST]), _ENTRY_ROOT])]),
+    S("(p ?x)", tok={(0,): OTHER}, length={(): 2}, sink=_ENTRY_SINK, sites=[("parse", [((), ["in:0", TO_AST]), _ENTRY_ROOT])]),
+    S("(flag)", tok={(0,): OTHER}, length={(): 1}, sink=_ENTRY_SINK, sites=[("parse", [((), ["in:0", TO_AST]), _ENTRY_ROOT])]),
+    S("(not (p ?x))", tok={(0,): "not"}, length={(): 2}, sink=_ENTRY_SINK, sites=[("parse", [((), ["in:0", TO_AST]), _ENTRY_ROOT])]),
+]
+
+
+_OPERAND = "construct_expression_tree.expression_ast"
+_ARITH = dict(is_list={(): True}, flat={(): True})
+_FUNC_KEY = (("1:",), [("arg0:zip", "in:key", "in:setkey"), "PDDLFunction.signature", "AnyNode.value"])
+# numeric expressions handed to construct_expression_tree: a token, a flat list (fluent / arithmetic over two numbers), a nested binary form
+EXPRESSION_SCENARIOS = [
+    S("number", tok={(): OTHER}, returns=[((), ["arg0:float", "AnyNode.value"])]),
+    S("operator-as-operand", tok={(): "+"}, reject="a bare operator token is not an operand"),
+    S("(+ 1 2)", tok={(0,): "+", (1,): "1", (2,): "2"}, length={(): 3}, **_ARITH,
+      returns=[((0,), ["=", "AnyNode.value"]), ((1,), ["arg0:float", "AnyNode.value", "in:0", "AnyNode.children"]),
+               ((2,), ["arg0:float", "AnyNode.value", "in:1", "AnyNode.children"])]),
+    S("(* 1 2 3)", tok={(0,): "*", (1,): "1", (2,): "2", (3,): "3"}, length={(): 4}, **_ARITH, reject="n-ary arithmetic is outside the fragment"),
+    S("(- 1)", tok={(0,): "-", (1,): "1"}, length={(): 2}, **_ARITH, reject="unary minus is outside the fragment"),
+    S("(total-cost)", tok={(0,): OTHER}, length={(): 1}, **_ARITH,
+      returns=[("param:domain_functions", ["=", "item", "AnyNode.value"]), ((0,), ["=", "askey", "AnyNode.value"])]),
+    S("(f ?x)", tok={(0,): OTHER, (1,): "?x"}, length={(): 2}, **_ARITH, returns=[((0,), ["=", "PDDLFunction.name", "AnyNode.value"]), _FUNC_KEY]),
+    S("(f ?x ?y)", tok={(0,): OTHER, (1,): "?x", (2,): "?y"}, length={(): 3}, **_ARITH, returns=[((0,), ["=", "PDDLFunction.name", "AnyNode.value"]), _FUNC_KEY]),
+    S("(<= a b)", tok={(0,): "<="}, length={(): 3}, is_list={(): True}, flat={(): False},
+      returns=[((0,), ["=", "AnyNode.value"]), ((1,), [_OPERAND, "in:0", "AnyNode.children"]), ((2,), [_OPERAND, "in:1", "AnyNode.children"])]),
+    S("(+ a b c)", tok={(0,): "+"}, length={(): 4}, is_list={(): True}, flat={(): False}, reject="n-ary arithmetic is outside the fragment"),
+    S("(- a)", tok={(0,): "-"}, length={(): 2}, is_list={(): True}, flat={(): False}, reject="unary minus is outside the fragment"),
+]
+
+
+_TYPES = ("fresh:Domain", ["=", "attr:types"])
+# the sections of (define (domain ..) ..): what each one must fill in the Domain, from which part of the section, with which vocabulary
+SECTION_SCENARIOS = [
+    S("domain", tok={(0,): "domain"}, length={(): 2}, sink=(("name",), [((1,), ["="])])),
+    S(":requirements", tok={(0,): ":requirements"}, sink=(("requirements",), [(("1:",), ["="])])),
+    S(":types", tok={(0,): ":types"}, sink=(("types",), [(("1:",), ["=", "parse_types.types"])])),
+    S(":constants", tok={(0,): ":constants"}, sink=(("constants",), [(("1:",), ["=", "parse_constants.constants_ast"]), (_TYPES[0], _TYPES[1] + ["parse_constants.domain_types"])])),
+    S(":predicates", tok={(0,): ":predicates"}, sink=(("predicates",), [(("1:",), ["=", "parse_predicates.predicates_ast"]), (_TYPES[0], _TYPES[1] + ["parse_predicates.domain_types"])])),
+    S(":functions", tok={(0,): ":functions"}, sink=(("functions",), [(("1:",), ["=", "parse_functions.functions_ast"]), (_TYPES[0], _TYPES[1] + ["parse_functions.domain_types"])])),
+    S(":action", tok={(0,): ":action"}, sink=(("actions",), [(("1:",), ["=", "parse_action.action_ast"]), (_TYPES[0], _TYPES[1] + ["parse_action.domain_types"]),
+                                                          ("fresh:Domain", ["=", "attr:functions", "parse_action.domain_functions"]),
+                                                          ("fresh:Domain", ["=", "attr:predicates", "parse_action.domain_predicates"]),
+                                                          ("fresh:Domain", ["=", "attr:constants", "parse_action.domain_constants"])])),
+]
+# a literal of an action body: (p a1 .. an) -> Predicate(name = p, signature = {ai: type of ai}) looked up among the action's parameters and the constants
+LITERAL_FLOWS = [((0,), ["=", "Predicate.name"]), (("1:", "*"), ["=", ("in:key", "in:setkey"), "Predicate.signature"]),
+                 (("1:", "*"), ["=", "askey", ("in:value", "in:setval"), "Predicate.signature"]),
+                 ("param:action_signature", [("in:value", "in:setval"), "Predicate.signature"]),
+                 ("param:domain_constants", [("in:value", "in:setval"), "Predicate.signature"]),
+                 ("param:is_positive", ["=", "Predicate.is_positive"])]
+LITERAL_SCENARIOS = [S("(p ?x ?y)", returns=LITERAL_FLOWS)]
+
+
+def _const_mods(repo: Repo, f: FuncInfo) -> List[str]:
+    mods = {f.mod.name, repo.module("lisp_parsers.parsing_utils").name}
+    for qn in getattr(f, "inlined", []) or []:
+        if "::" in qn:
+            try:
+                mods.add(repo.module(qn.split("::")[0]).name)
+            except Exception:
+                pass
+    return sorted(mods)
+
+
+def _function_model(repo: Repo, spec: str, inline_public: bool = False):
+    """the whole function as the handler of ONE node: the parameter whose head is tested"""
+    f0 = repo.func(spec)
+    f = L.fn(repo, spec, also=(U.public_callees(repo, f0) or None) if inline_public else None)
+    best = None
+    for pn in f.params:
+        if pn == f.self_name:
+            continue
+        tr = {(f"param:{pn}",)}
+        model = U.NodeModel(repo, f, tr, const_mods=_const_mods(repo, f))
+        if model.tests and (best is None or len(model.tests) > len(best[1].tests)):
+            best = (tr, model)
+    if best is None:
+        # a handler without any test of its node: the node is the first parameter
+        first = [pn for pn in f.params if pn != f.self_name][:1]
+        if not first:
+            raise AnalysisError(f"{spec}: no parameter -- the handler idiom is not interpreted")
+        tr = {(f"param:{first[0]}",)}
+        best = (tr, U.NodeModel(repo, f, tr, const_mods=_const_mods(repo, f)))
+    tr, model = best
+    return f, None, tr, model, U.Region(model, None)
+
+
+def _list_source(path) -> bool:
+    """the path denotes (a positional part of) a parsed list that was handed in: a parameter, or the result of the tokenizer"""
+    k = len(path)
+    while k > 1 and U.norm_pos(path[k - 1:k])[1] == ():
+        k -= 1
+    head = path[:k]
+    if head[0].startswith("param:"):
+        return len(head) == 1
+    return head[0] == "self" and len(head) >= 2 and head[-1].startswith("call:") and all(s.startswith("attr:") for s in head[1:-1])
+
+
+def _source_pos(path):
+    k = len(path)
+    while k > 1 and U.norm_pos(path[k - 1:k])[1] == ():
+        k -= 1
+    return U.norm_pos(path[k:])[0]
+
+
+def _node_model(repo: Repo, spec: str, mode: str = "loop", inline_public: bool = True):
+    """(flattened function with the public methods it calls on self analysed in place, node loop, NodeModel, Region)"""
+    if mode == "function":
+        return _function_model(repo, spec)
+    f0 = repo.func(spec)
+    f = L.fn(repo, spec, also=(U.public_callees(repo, f0) or None) if inline_public else None)
+    p = L.prov(repo, f)
+    # the outermost loop over (a positional part of) a list handed in whose element's head is tested: the walk over the nodes.
+    # Found by provenance: the tests are those of NodeModel (position 0 of the element), whatever the head is called or unpacked into
+    best = None
+    for lp in [n for n in ast.walk(f.node) if isinstance(n, ast.For)]:
+        try:
+            tr = p.trace(lp.iter)
+        except (KeyError, RecursionError):
+            continue
+        if not tr or not all(_list_source(x) for x in tr):
+            continue
+        model = U.NodeModel(repo, f, {x + ("elem",) for x in tr}, const_mods=_const_mods(repo, f))
+        if model.head_tests() < 1:
+            continue
+        if best is None or len(list(ast.walk(lp))) > len(list(ast.walk(best[0]))):
+            best = (lp, tr, model)
+    if best is None:
+        raise AnalysisError(f"{spec}: the loop over the nodes of the parsed list (element head tested) was not found")
+    loop, tr, model = best
+    return f, loop, tr, model, U.Region(model, loop)
+
+
+PRINTED = {"arg0:format", "arg0:str", "arg0:repr"}     # a value that went through these is the TEXT of the object, not the object
+
+
+def _flow_ok(F, e, flows) -> List[str]:
+    """the flows (origin, steps) that the value of `e` does NOT have.  steps: names in this order (other steps may lie between, but never
+    a printing step: the printed form of a part is not the part); a leading "=" asks for exactly these steps; a tuple is a choice"""
+    missing = []
+    for origin, steps in flows:
+        exact = bool(steps) and steps[0] == "="
+        alts = [s if isinstance(s, tuple) else (s,) for s in (steps[1:] if exact else steps)]
+        ok = False
+        for o, have in F.of(e):
+            if o != origin:
+                continue
+            if any(h in PRINTED and not any(h in alt for alt in alts) for h in have):
+                continue
+            if exact:
+                if len(have) == len(alts) and all(h in alt for h, alt in zip(have, alts)):
+                    ok = True
+                    break
+                continue
+            it = iter(have)
+            if all(any(h in alt for h in it) for alt in alts):
+                ok = True
+                break
+        if not ok:
+            missing.append(f"{_pos_text(origin)} -> {' -> '.join('/'.join(a) for a in alts)}")
+    return missing
+
+
+def _pos_text(o) -> str:
+    if isinstance(o, tuple):
+        return "node" + "".join(f"[{k}]" for k in o)
+    return str(o)
+
+
+def rule_scenarios(repo: Repo, rid: str, spec: str, scenarios, what: str, mode: str = "loop", extra_roots=(), inline_public: bool = True) -> RuleResult:
+    """the handler of `spec` under the guard valuation of each input class of the table (see _c01_util; static -- CFG reachability and
+    provenance under the valuation, nothing is executed): a supported form is accepted (one turn can end
+    without raise, the raise of the unknown-node arm is not reachable), on every accepting path the form reaches the expected sink of the
+    object under construction with its parts at the expected constructor / callee parameters, no other part of that object is written, the
+    value stored is built in THIS turn; an unsupported form is rejected on every path"""
+    r = RuleResult(rid, f"{what}: every supported form is accepted and stored with its parts at the right places, every other form is rejected",
+                   "each action's precondition and effect denote the same formula as written; a construct the library cannot represent raises an error")
+    f, loop, tr, model, R = _node_model(repo, spec, mode, inline_public)
+    g = model.g
+    ast_params = {x[0] for x in tr}
+    roots = {f"param:{x}" for x in f.params if x != f.self_name and f"param:{x}" not in ast_params} | set(extra_roots)
+    if loop is None:
+        loop = f.node
+    if mode == "loop" and model.head_tests() < 2:
+        raise AnalysisError(f"{spec}: fewer than two tests of the head of the node were recognised -- the dispatch idiom is not interpreted")
+    default_raises = R.raises(S("<unknown>", tok={(0,): OTHER}, declared=False)) if mode == "loop" else set()
+    for sc in scenarios:
+        r.site(f"{f.qn} [{sc.name}]")
+        ex = sc.expect
+        if ex.get("reject"):
+            if R.completes(sc):
+                r.fail(Finding(rid, f, f"accepted:{sc.name}", f"a node of the form <{sc.name}> is not rejected on every path ({ex['reject']})", node=loop))
+            else:
+                r.ok({"scenario": sc.name, "rejected": True})
+            continue
+        problems: List[Tuple[str, str, Optional[ast.AST]]] = []
+        if ex.get("accept_only"):
+            if not R.completes(sc):
+                problems.append((f"rejected:{sc.name}", f"the supported form <{sc.name}> is always rejected", None))
+            for e in R.exprs(sc, (ast.Subscript,)):
+                if isinstance(e.ctx, ast.Load) and R.out_of_range(sc, e):
+                    c_ = model.classify(e)
+                    problems.append((f"out-of-range:{sc.name}", f"<{sc.name}>: {_pos_text(c_[1])} is read although {_pos_text(c_[1][:-1])} has "
+                                     f"{model.length_of(sc, c_[1][:-1])} element(s): the supported form ends in IndexError ({ex['accept_only']})", e))
+                    break
+            if problems:
+                for role, text, node in problems[:3]:
+                    r.fail(Finding(rid, f, role, text, node=node or loop))
+            else:
+                r.ok({"scenario": sc.name, "accepted": True})
+            continue
+        if not R.completes(sc):
+            problems.append((f"rejected:{sc.name}", f"a node of the supported form <{sc.name}> is always rejected (every path of its turn ends in raise)", None))
+        else:
+            falls = R.raises(sc) & default_raises
+            if falls:
+                problems.append((f"falls-through:{sc.name}", f"a node of the supported form <{sc.name}> can reach the raise of the unknown-node arm", g.stmt[sorted(falls)[0]]))
+            for e in R.exprs(sc, (ast.Subscript,)):
+                if isinstance(e.ctx, ast.Load) and R.out_of_range(sc, e):
+                    c_ = model.classify(e)
+                    problems.append((f"out-of-range:{sc.name}", f"<{sc.name}>: {_pos_text(c_[1])} is read although {_pos_text(c_[1][:-1])} has "
+                                     f"{model.length_of(sc, c_[1][:-1])} element(s): the supported form ends in IndexError", e))
+                    break
+            F = U.Flows(R, sc)
+            calls = R.exprs(sc, (ast.Call,))
+            stmts = [g.stmt[n] for n in sorted(R.nodes(sc)) if isinstance(g.stmt[n], (ast.Assign, ast.AnnAssign, ast.AugAssign))]
+            sinks = U.sinks_of(model, calls + stmts, roots)
+            good, notes = set(), []
+            if "returns" in ex:
+                # the handler RETURNS what the node becomes: every normal exit is a return of a value with the parts in place
+                want_attrs, want_flows = ("<returned value>",), ex["returns"]
+                for n_ in sorted(R.nodes(sc)):
+                    st = g.stmt[n_]
+                    if isinstance(st, ast.Return) and st.value is not None:
+                        miss = _flow_ok(F, st.value, want_flows)
+                        stale = R.stale_names(sc, st.value)
+                        if not miss and not stale:
+                            good.add(n_)
+                        elif stale:
+                            notes.append(f"`{unparse(st, 40)}` returns a value that is not built on this path (no definition of {stale} reaches it)")
+                        else:
+                            notes.append(f"`{unparse(st, 40)}` lacks {miss}")
+                sinks = []
+            else:
+                want_attrs, want_flows = ex["sink"]
+            for s in sinks:
+                if s.attrs == tuple(want_attrs) and s.kind in ("add", "store") and s.value is not None:
+                    miss = _flow_ok(F, s.value, want_flows)
+                    stale = R.stale_names(sc, s.node)
+                    if not miss and not stale:
+                        good.add(g.node_containing(s.node) if not isinstance(s.node, ast.stmt) else g.node_of(s.node))
+                    elif stale:
+                        notes.append(f"{s.label()} stores a value left over from an earlier node (no definition of {stale} in this turn)")
+                    else:
+                        notes.append(f"{s.label()} lacks {miss}")
+                elif s.attrs == tuple(want_attrs) and s.kind not in ("add", "store"):
+                    problems.append((f"sink-kind:{sc.name}", f"<{sc.name}>: {s.label()}(..) does not add to the object under construction", s.node))
+                elif s.kind in ("add", "remove", "store"):
+                    problems.append((f"foreign-sink:{sc.name}", f"<{sc.name}>: {s.label()} is written although the form is not of that kind", s.node))
+            if not good or not R.always_passes(sc, good):
+                tgt = "the returned value" if "returns" in ex else ".".join(("<root>",) + tuple(want_attrs)) + " (add)"
+                problems.append((f"sink:{sc.name}", f"a node of the form <{sc.name}> does not reach {tgt} with its parts in place on every accepting path"
+                                 + (f": {'; '.join(notes[:2])}" if notes else ""), None))
+            if ex.get("nested_result") and good:
+                # the nested formula is what the recursive call RETURNS: then every normal exit must return the object it was given
+                p = model.p
+                for s in sinks:
+                    if s.value is None or not any(o == "self" and steps == (f"call:{f.name}",) for o, steps in F.of(s.value)):
+                        continue
+                    bad_exit = None
+                    for n_, _l in g.pred[g.exit]:
+                        st = g.stmt[n_]
+                        if isinstance(st, ast.Return) and st.value is not None:
+                            tr_ = p.trace(st.value)
+                            if tr_ and all(len(x) == 1 and x[0] in roots for x in tr_):
+                                continue
+                        bad_exit = st
+                        break
+                    if bad_exit is not None or not g.pred[g.exit]:
+                        problems.append((f"nested-result:{sc.name}", f"<{sc.name}>: the nested formula stored is the result of the recursive call, but the function does not "
+                                         f"return the object it fills on every exit ({unparse(bad_exit, 40) if bad_exit is not None else 'falls off the end'}): None is stored", bad_exit))
+                    break
+            for callee, flows in ex.get("sites", []):
+                hits = set()
+                lacks = []
+                for c in calls:
+                    if callee_name(c) == callee:
+                        miss = _flow_ok(F, c, flows)
+                        if not miss:
+                            hits.add(g.node_containing(c))
+                        else:
+                            lacks.append(miss)
+                if not hits or not R.always_passes(sc, hits):
+                    problems.append((f"site:{callee}:{sc.name}", f"<{sc.name}>: no call of {callee} with {lacks[0] if lacks else 'the parts of the node'} on every accepting path", None))
+        if problems:
+            for role, text, node in problems[:3]:
+                r.fail(Finding(rid, f, role, text, node=node or loop))
+        else:
+            r.ok({"scenario": sc.name, "accepted": True, "sink": list(ex["sink"][0]) if "sink" in ex else "return"})
+    r.require_sites(len(scenarios))
+    return r
+
+
+def rule_walk(repo: Repo, rid: str, specs: List[str]) -> RuleResult:
+    r = RuleResult(rid, "the walk over the nodes of a parsed list visits every node: no turn ends the loop (break / return)",
+                   "no conjunct / effect / declaration is dropped")
+    for spec in specs:
+        f, loop, _tr, model, R = _node_model(repo, spec)
+        r.site(f"{f.qn} [node loop]")
+        src_pos = {_source_pos(x) for x in _tr}
+        if not src_pos <= {(), ("1:",)}:
+            r.fail(Finding(rid, f, "walk-source", f"the loop over the parsed nodes iterates {sorted(map(_pos_text, src_pos))} of the list it was given "
+                           f"(expected: the list, or what follows its checked head): leading nodes are skipped", node=loop))
+        if L.leaves_loop_early(model.G, {}, loop):
+            r.fail(Finding(rid, f, "walk-left-early", "one turn of the loop over the parsed nodes can end the loop (break / return): the nodes "
+                           "after it are dropped silently", node=loop))
+        else:
+            r.ok({"function": f.qn, "loop": unparse(loop.iter, 40), "left_early": False})
+    r.require_sites(len(specs))
+    return r
+
+
+def rule_defaults(repo: Repo, rid: str = "C01.defaults") -> RuleResult:
+    """a domain text may leave out :types / :constants / :predicates / :functions: the fields of the fresh Domain that parse_domain READS
+    (hands to the section parsers, indexes) exist from the constructor on, on every path of it"""
+    r = RuleResult(rid, "every field of the new Domain that parse_domain reads is set by the constructor on every path",
+                   "a domain without a :types / :constants / :predicates / :functions section is parsed (absent section = empty declaration)")
+    f = L.fn(repo, "DomainParser.parse_domain")
+    p = L.prov(repo, f)
+    read: Dict[str, ast.AST] = {}
+    classes: Set[str] = set()
+    for n in ast.walk(f.node):
+        if isinstance(n, ast.Attribute) and isinstance(n.ctx, ast.Load):
+            try:
+                tr = p.trace(n.value)
+            except (KeyError, RecursionError):
+                continue
+            fresh = {x[0] for x in tr if len(x) == 1 and x[0].startswith("fresh:")}
+            if len(fresh) == 1 and all(len(x) == 1 or x[0] == next(iter(fresh)) for x in tr):
+                cls = next(iter(fresh))[6:]
+                if cls in repo.classes and repo.find_method(cls, n.attr) is None and not repo.is_property(cls, n.attr):
+                    classes.add(cls)
+                    read.setdefault(f"{cls}.{n.attr}", n)
+    if not read:
+        raise AnalysisError("parse_domain: no field of a freshly constructed Domain is read -- the section idiom changed")
+    for key, node in sorted(read.items()):
+        cls, attr = key.split(".", 1)
+        r.site(f"{f.qn} reads {key}")
+        init = repo.find_method(cls, "__init__")
+        ok = False
+        if init is not None and getattr(init, "node", None) is not None:
+            fi = L.fn(repo, f"{cls}.__init__") if repo.func_opt(f"{cls}.__init__") is not None else init
+            g = C.cfg_of(fi.node)
+            selfn = fi.params[0] if fi.params else "self"
+            setters = set()
+            for n_ in g.nodes():
+                st = g.stmt[n_]
+                tg = st.targets if isinstance(st, ast.Assign) else [st.target] if isinstance(st, (ast.AnnAssign, ast.AugAssign)) and getattr(st, "value", None) is not None else []
+                for t in tg:
+                    for x in ([t] if not isinstance(t, (ast.Tuple, ast.List)) else t.elts):
+                        if isinstance(x, ast.Attribute) and x.attr == attr and isinstance(x.value, ast.Name) and x.value.id in L.aliases(fi, {selfn}):
+                            setters.add(n_)
+                if isinstance(st, ast.Expr) and isinstance(st.value, ast.Call) and callee_name(st.value) == "setattr" and len(st.value.args) == 3 \
+                        and isinstance(st.value.args[1], ast.Constant) and st.value.args[1].value == attr:
+                    setters.add(n_)
+            ok = bool(setters) and g.exit not in C.reachable_from(g, g.entry, avoid=setters)
+        if not ok:
+            # a class-level default (dataclass field, plain class attribute)
+            ci = repo.classes.get(cls)
+            for b in getattr(getattr(ci, "node", None), "body", []) or []:
+                if isinstance(b, ast.AnnAssign) and b.value is not None and isinstance(b.target, ast.Name) and b.target.id == attr:
+                    ok = True
+                if isinstance(b, ast.Assign) and any(isinstance(t, ast.Name) and t.id == attr for t in b.targets):
+                    ok = True
+        if ok:
+            r.ok({"field": key, "set_by_constructor": True})
+        else:
+            r.fail(Finding(rid, f, f"unset-field:{key}", f"parse_domain reads {key} of the Domain it has just constructed, but {cls}.__init__ does not set it on every "
+                           f"path: a domain text without the section that fills it ends in AttributeError", node=node))
+    r.require_sites(3)
+    return r
+
+
+def rule_trailing(repo: Repo, rid: str, specs: List[str]) -> RuleResult:
+    """the names collected after the last '- type' of a dash-grouped list: when that group is NOT empty, every way from the end of the walk
+    to the function's exit stores its names (a statement that hands an element of the group to a store / call) or raises"""
+    r = RuleResult(rid, "a non-empty trailing group (names after the last '- type') is stored or rejected on every path after the walk",
+                   "the parsed declarations are exactly the declared names (untyped parameters / constants / types keep their place)")
+    for spec in specs:
+        f = L.fn(repo, spec)
+        g = C.cfg_of(f.node)
+        p = L.prov(repo, f)
+        accs: Dict[str, int] = {}
+        for c in L.calls_in(f.node):
+            if isinstance(c.func, ast.Attribute) and c.func.attr == "append" and isinstance(c.func.value, ast.Name):
+                n = g.node_containing(c)
+                if n is not None and g.loop_of.get(n) is not None:
+                    top = g.loop_of[n]
+                    while g.loop_of.get(top) is not None:
+                        top = g.loop_of[top]
+                    accs[c.func.value.id] = top
+        if not accs:
+            raise AnalysisError(f"{spec}: token accumulator not recognised (dash-grouped list idiom changed)")
+        for acc, top in sorted(accs.items()):
+            r.site(f"{f.qn} [{acc}]")
+            names = L.aliases(f, {acc})
+            marks = tuple(f"in:append@{x}" for x in names)
+
+            def holds_element(e) -> bool:
+                try:
+                    tr = p.trace(e, keys=True)
+                except (KeyError, RecursionError):
+                    return False
+                return any(any(s in marks for s in x) for x in tr)
+
+            inloop = {g.node_of(x) for x in ast.walk(g.stmt[top]) if isinstance(x, (ast.stmt, ast.ExceptHandler)) and x is not g.stmt[top]} - {None}
+            flush: Set[int] = set()
+            for n in g.nodes():
+                if n in inloop or n == top:
+                    continue
+                st = g.stmt[n]
+                if st is None:
+                    continue
+                hit = False
+                if isinstance(st, (ast.Assign, ast.AugAssign, ast.AnnAssign)):
+                    tg = st.targets if isinstance(st, ast.Assign) else [st.target]
+                    for t in tg:
+                        if isinstance(t, ast.Subscript) and (holds_element(t.slice) or (getattr(st, "value", None) is not None and holds_element(st.value))):
+                            hit = True
+                        if isinstance(t, ast.Attribute) and getattr(st, "value", None) is not None and holds_element(st.value):
+                            hit = True
+                h = C.header(st)
+                if not hit and h is not None and not isinstance(st, (ast.If, ast.While, ast.Assert, ast.For)):
+                    for c in L.calls_in(h):
+                        if L.is_logging_call(c) or (isinstance(c.func, ast.Name) and c.func.id in D.NEUTRAL_CALLS | {"any", "all", "sorted", "list", "set", "tuple"}):
+                            continue
+                        if isinstance(c.func, ast.Attribute) and isinstance(c.func.value, ast.Name) and c.func.value.id in names:
+                            continue        # a call ON the group (clear, copy ..) does not store it anywhere
+                        if any(holds_element(a) for a in list(c.args) + [k.value for k in c.keywords]):
+                            hit = True
+                if not hit and h is not None and not isinstance(st, (ast.If, ast.While, ast.Assert, ast.For)):
+                    # {n: T for n in GROUP} / [.. for n in GROUP] as (part of) a stored / returned / passed value
+                    for x in ast.walk(h):
+                        if isinstance(x, (ast.ListComp, ast.SetComp, ast.DictComp, ast.GeneratorExp)) and any(
+                                isinstance(gen.iter, ast.Name) and gen.iter.id in names for gen in x.generators):
+                            hit = True
+                if hit:
+                    flush.add(n)
+                    # the statement sits in a loop over the group: with a non-empty group the loop is entered
+                    lp = g.loop_of.get(n)
+                    while lp is not None and lp not in inloop and lp != top:
+                        st_lp = g.stmt[lp]
+                        if isinstance(st_lp, ast.For) and isinstance(st_lp.iter, ast.Name) and st_lp.iter.id in names:
+                            flush.add(lp)
+                        lp = g.loop_of.get(lp)
+
+            def matcher(e):
+                if isinstance(e, ast.Name) and isinstance(e.ctx, ast.Load) and e.id in names:
+                    return "!empty"
+                if isinstance(e, ast.Compare) and len(e.ops) == 1:
+                    l, r_, op = e.left, e.comparators[0], type(e.ops[0])
+                    if isinstance(l, ast.Call) and isinstance(l.func, ast.Name) and l.func.id == "len" and len(l.args) == 1 and isinstance(l.args[0], ast.Name) \
+                            and l.args[0].id in names and isinstance(r_, ast.Constant) and isinstance(r_.value, int):
+                        if (op, r_.value) in ((ast.Eq, 0), (ast.Lt, 1), (ast.LtE, 0)):
+                            return "empty"
+                        if (op, r_.value) in ((ast.NotEq, 0), (ast.Gt, 0), (ast.GtE, 1)):
+                            return "!empty"
+                    if isinstance(l, ast.Name) and l.id in names and isinstance(r_, (ast.List, ast.Tuple)) and not r_.elts and op in (ast.Eq, ast.NotEq):
+                        return "empty" if op is ast.Eq else "!empty"
+                return None
+
+            G = L.Guards(f, matcher)
+            seeds = {m for m, l in g.succ[top] if l != "iter"} | {m for n_ in inloop for m, _l in g.succ[n_] if m not in inloop and m != top}
+            escapes = False
+            for s_ in seeds:
+                if s_ in flush or s_ == g.raise_:
+                    continue
+                if s_ == g.exit or g.exit in G.reach({"empty": False}, avoid=flush, start=s_):
+                    escapes = True
+            # leaving the function from inside the walk (return in the loop) is judged by C01.walk / C01.typedlist
+            if escapes:
+                r.fail(Finding(rid, f, "trailing-group-lost", "with names collected after the last '- type' (a non-empty trailing group) the function can be left "
+                               "without storing or rejecting them: trailing untyped names are dropped", node=g.stmt[top]))
+            else:
+                r.ok({"function": f.qn, "flush_statements": len(flush)})
+    r.require_sites(len(specs))
+    return r
+
+
+def new_rules(repo: Repo) -> List[RuleResult]:
+    return [
+        rule_walk(repo, "C01.walk", ["PreconditionsParser.parse", "EffectsParser.parse"]),
+        rule_scenarios(repo, "C01.forms.precondition", "PreconditionsParser.parse", PRECONDITION_SCENARIOS, "precondition nodes"),
+        rule_scenarios(repo, "C01.forms.effect", "EffectsParser.parse", EFFECT_SCENARIOS, "effect nodes"),
+        rule_scenarios(repo, "C01.forms.body", "DomainParser.parse_preconditions", PRECONDITION_BODY_SCENARIOS, "the :precondition body", mode="function"),
+        rule_scenarios(repo, "C01.forms.expression", "models.numerical_expression::construct_expression_tree", EXPRESSION_SCENARIOS, "numeric expressions", mode="function"),
+        rule_scenarios(repo, "C01.forms.literal", "lisp_parsers.parsing_utils::parse_untyped_predicate", LITERAL_SCENARIOS, "literals of action bodies", mode="function"),
+        rule_defaults(repo),
+        rule_trailing(repo, "C01.trailing", ["DomainParser.parse_types", "DomainParser.parse_constants", "lisp_parsers.parsing_utils::parse_signature"]),
+        rule_scenarios(repo, "C01.forms.section", "DomainParser.parse_domain", SECTION_SCENARIOS, "domain sections", extra_roots=("fresh:Domain",), inline_public=False),
+    ]
+
+
 def rules(repo: Repo, tier: str) -> List[RuleResult]:
     return [
         rule_typedlist(repo, "C01.typedlist", ["lisp_parsers.parsing_utils::parse_signature", "DomainParser.parse_constants"]),
@@ -914,7 +1516,7 @@ def rules(repo: Repo, tier: str) -> List[RuleResult]:
         rule_optables(repo),
         c12.rule_order(repo, "C01.operands"),
         rule_leftover(repo, "C01.leftover", ["DomainParser.parse_types", "DomainParser.parse_constants", "lisp_parsers.parsing_utils::parse_signature"]),
-    ] + _type_rules(repo)
+    ] + _type_rules(repo) + new_rules(repo)
 
 
 def _type_rules(repo: Repo) -> List[RuleResult]:
